@@ -68,13 +68,14 @@ def run(tier):
               "(Inv_C18_Family: family of every contacted address against what local zones and cache hold at that "
               "moment; look-up order of resolve_hostname_to_ip; forwarder only), and every recorded resolution is "
               "validated as a behaviour of that state machine. An evaluation is one resolution.")
-    v.assumptions = ["the map from addresses to name-server hosts is supplied with the universe"]
+    v.assumptions = ["the map from addresses to name-server hosts is supplied with the universe",
+                     "an IPv4-mapped IPv6 address (::ffff:a.b.c.d, from an AAAA record) is an IPv6 address"]
     wd = workdir("c18")
     vlib.build_harness()
     r_ = rng(18)
     n = 80 if tier == "quick" else 2000
     scs = uc.universe_scenarios(r_, wd, n, [1, 2, 2, 3, 3, 4], "mixed", ["only-v4", "prefer-v4", "prefer-v6", "only-v6"],
-                                False, nq=(2, 5), forwarding_p=0.15, partial_hints_p=0.3, fault_p=0.4)
+                                False, nq=(2, 5), forwarding_p=0.15, partial_hints_p=0.3, fault_p=0.4, mapped_p=0.15)
     scs += directed(r_, wd)
     lines, rejects = rc.run_scenarios(v, PID, wd, "tv", scs, chunk=40)
     fam = {}
@@ -86,8 +87,8 @@ def run(tier):
     v.notes["exchanges_by_mode_and_family"] = fam
     # the resolver as a state machine: Inv_C18_Family in every reachable state of every explored universe (every order
     # of candidates and addresses, faults anywhere), and the recorded resolutions as behaviours of that state machine
-    rec.model_check(v, PID, wd, r_, tier)
     rec.conformance(v, wd, lines)
+    rec.explore(v, PID, wd, r_, tier)
     if lines:
         ln = lines[0]
         v.sample({"protocol": ln["protocol"], "question": ln["runs"][0]["q"],
